@@ -957,7 +957,7 @@ int main(int argc, char **argv) {
   bsx::Report R;
   R.property = "C10"; R.part = a.kv.count("part") ? a.kv["part"] : "sched"; R.tier = a.tier;
   bool thorough = a.tier == "thorough";
-  R.deadline_s = thorough ? 480 : 90;
+  R.deadline_s = thorough ? (R.part == "sched" ? 900 : 480) : 90;
   vsx::Explorer ex;
   ex.horizon = horizon;
   long long unit = 0, schedules = 0, points = 0, instants = 0, recov = 0, crashpoints = 0;
@@ -1025,33 +1025,56 @@ int main(int argc, char **argv) {
              "simulated pid, every open/read/write of job file and backup a scheduling point, with T >= 2 also the instant after every thread-mutex release), for (K,T) x jobs x cache x maxjobs and restart patterns "
              "x pre-seeded files; oracle: each eligible job executed exactly once, per-process maxjobs respected, final file complete with status/host/"
              "output of its executor, untouched jobs unchanged, no exception, no deadlock. distinct_nontrivial = distinct (config, executor assignment, final file) observations";
-    bool stop = false;
-    for (const Cfg &c : cfgs) {
-      if (stop) break;
-      ex.body = [&](vs_shared *shm, const std::vector<int> &ch) { child_body(c, shm, ch, horizon); };
-      int bound = bound_for(c);
-      auto on_exec = [&](const vsx::Exec &x) -> bool {
-        schedules++; points += x.npoints(); R.eval();
-        Verdict v = judge(c, x);
-        std::string cas = cfgstr(c) + ";sched=" + vsx::sched_str(x.choices);
-        if (!v.ok) {
-          if (v.key == "MACHINERY") { fprintf(stderr, "MACHINERY-ERROR %s [%s]\n", v.what.c_str(), cas.c_str()); exit(2); }
-          R.fail(v.key, v.what + "  [" + cas + "]", cas);
-        } else {
-          R.cls(cfgstr(c) + "|" + v.obs);
-          if (R.samples.size() < R.max_samples && schedules % 53 == 1) R.sample(cas + " => " + v.obs);
+    // Iterated bounds, small configurations first: level 0 explores EVERY configuration at bound min(k,1) (at most 45% of the
+    // thorough time budget), level 1 re-explores the configurations whose bound is 2 at that bound.  Inside a level an item
+    // may use up to 3x the equal share of what is left (unused time flows on), so an item that is too large is reported as
+    // cut short and does not starve the items after it.  quick: the global budget only.
+    std::stable_sort(cfgs.begin(), cfgs.end(), [](const Cfg &x, const Cfg &y) { return x.K * x.T < y.K * y.T; });
+    std::map<std::string, long long> done, capped, sched_by;
+    for (int level = 0; level < 2; level++) {
+      std::vector<const Cfg *> todo;
+      for (const Cfg &c : cfgs) if (level == 0 || bound_for(c) >= 2) todo.push_back(&c);
+      double level_end = (thorough && level == 0) ? 0.45 * R.deadline_s : R.deadline_s;
+      for (size_t ci = 0; ci < todo.size(); ci++) {
+        const Cfg &c = *todo[ci];
+        ex.body = [&](vs_shared *shm, const std::vector<int> &ch) { child_body(c, shm, ch, horizon); };
+        int bound = level == 0 ? std::min(bound_for(c), 1) : bound_for(c);
+        std::string klass = "K" + std::to_string(c.K) + "T" + std::to_string(c.T) + "_bound" + std::to_string(bound);
+        double slice_end = thorough ? R.elapsed() + 3.0 * std::max(0.0, level_end - R.elapsed()) / double(todo.size() - ci) : R.deadline_s;
+        if (slice_end > level_end) slice_end = level_end;
+        bool cut = false;
+        auto on_exec = [&](const vsx::Exec &x) -> bool {
+          schedules++; sched_by[klass]++; points += x.npoints(); R.eval();
+          Verdict v = judge(c, x);
+          std::string cas = cfgstr(c) + ";sched=" + vsx::sched_str(x.choices);
+          if (!v.ok) {
+            if (v.key == "MACHINERY") { fprintf(stderr, "MACHINERY-ERROR %s [%s]\n", v.what.c_str(), cas.c_str()); exit(2); }
+            R.fail(v.key, v.what + "  [" + cas + "]", cas);
+          } else {
+            R.cls(cfgstr(c) + "|" + v.obs);
+            if (R.samples.size() < R.max_samples && schedules % 53 == 1) R.sample(cas + " => " + v.obs);
+          }
+          if (R.elapsed() > slice_end) { cut = true; return false; }
+          return true;
+        };
+        vsx::Exec root = ex.run({});
+        std::vector<vsx::Explorer::Branch> br = ex.branches(root, bound);
+        long long base = unit;
+        unit += 1 + (long long)br.size();  // the same numbering in every shard, whatever is cut short
+        if (a.mine(base)) { vsx::Exec r2 = ex.run({}); on_exec(r2); }
+        for (size_t bi = 0; bi < br.size() && !cut; bi++) {
+          if (!a.mine(base + 1 + (long long)bi)) continue;
+          ex.dfs(br[bi].prefix, br[bi].cost, bound, on_exec);
         }
-        if (R.out_of_time()) { R.cap("time budget reached while exploring " + cfgstr(c) + " at bound " + std::to_string(bound)); return false; }
-        return true;
-      };
-      vsx::Exec root = ex.run({});
-      std::vector<vsx::Explorer::Branch> br = ex.branches(root, bound);
-      if (a.mine(unit++)) { vsx::Exec r2 = ex.run({}); if (!on_exec(r2)) { stop = true; break; } }
-      for (auto &b : br) {
-        if (!a.mine(unit++)) continue;
-        if (!ex.dfs(b.prefix, b.cost, bound, on_exec)) { stop = true; break; }
+        if (cut) {
+          capped[klass]++;
+          if (capped[klass] <= 2) R.cap("time share used up while exploring " + cfgstr(c) + " at bound " + std::to_string(bound));
+        } else done[klass]++;
       }
     }
+    for (auto &kv : done) R.counters["items_completed_" + kv.first] = kv.second;
+    for (auto &kv : capped) { R.counters["items_capped_" + kv.first] = kv.second; R.cap(std::to_string(kv.second) + " work items of class " + kv.first + " were cut short by their time share (this shard)"); }
+    for (auto &kv : sched_by) R.counters["schedules_" + kv.first] = kv.second;
   } else {
     // ---- crash enumeration: (a) invariant "file or backup complete" at every crash instant of every
     // schedule with <= k preemptions (scan inside the run); (b) K=1: real crash at every I/O event x byte
@@ -1070,10 +1093,13 @@ int main(int argc, char **argv) {
           scan_cfgs.push_back(c);
         }
     bool stop = false;
-    for (const Cfg &c : scan_cfgs) {
-      if (stop) break;
+    // the scan gets at most 60% of the time budget, shared equally between its configurations; (b) gets the rest
+    for (size_t ci = 0; ci < scan_cfgs.size(); ci++) {
+      const Cfg &c = scan_cfgs[ci];
       ex.body = [&](vs_shared *shm, const std::vector<int> &ch) { child_body(c, shm, ch, horizon); };
       int bound = c.K * c.T == 1 ? 0 : 1;
+      double slice_end = R.elapsed() + std::max(0.0, 0.6 * R.deadline_s - R.elapsed()) / double(scan_cfgs.size() - ci);
+      bool cut = false;
       auto on_exec = [&](const vsx::Exec &x) -> bool {
         schedules++; points += x.npoints(); R.eval();
         Verdict v = judge(c, x);
@@ -1083,15 +1109,17 @@ int main(int argc, char **argv) {
           if (v.key == "MACHINERY") { fprintf(stderr, "MACHINERY-ERROR %s\n", v.what.c_str()); exit(2); }
           R.fail(v.key, v.what + "  [" + cas + "]", cas);
         } else R.cls("scan|" + cfgstr(c) + "|" + v.obs);
-        if (R.out_of_time()) { R.cap("time budget reached in crash-instant scan of " + cfgstr(c)); return false; }
+        if (R.elapsed() > slice_end) { R.cap("time share used up in crash-instant scan of " + cfgstr(c)); cut = true; return false; }
         return true;
       };
       vsx::Exec root = ex.run({});
       std::vector<vsx::Explorer::Branch> br = ex.branches(root, bound);
-      if (a.mine(unit++)) { vsx::Exec r2 = ex.run({}); if (!on_exec(r2)) { stop = true; break; } }
-      for (auto &b : br) {
-        if (!a.mine(unit++)) continue;
-        if (!ex.dfs(b.prefix, b.cost, bound, on_exec)) { stop = true; break; }
+      long long base = unit;
+      unit += 1 + (long long)br.size();  // the same numbering in every shard, whatever is cut short
+      if (a.mine(base)) { vsx::Exec r2 = ex.run({}); on_exec(r2); }
+      for (size_t bi = 0; bi < br.size() && !cut; bi++) {
+        if (!a.mine(base + 1 + (long long)bi)) continue;
+        ex.dfs(br[bi].prefix, br[bi].cost, bound, on_exec);
       }
     }
     // (b) real crashes + recovery, K=1
